@@ -162,6 +162,16 @@ def readWholeLines (file : Bytes) (rpl leb : Int) : Nat → Int → ReadLog → 
     let d := readAt file pos rpl
     readWholeLines file rpl leb k (pos + d.length + leb) { data := acc.data ++ d, reads := acc.reads ++ [rpl] }
 
+/-- the whole middle lines as `sequence_bytes` runs them: `fh.seek(leb, 1)` with a negative target raises OSError (CPython), at
+    every pass.  `= .ok (readWholeLines …)` whenever `0 ≤ leb` and `0 ≤ pos` (`Proofs/SeekChk.lean`); `readWholeLines` above is the
+    unchecked recursion, kept as the specification function of the proofs. -/
+def readWholeLinesChk (file : Bytes) (rpl leb : Int) : Nat → Int → ReadLog → R (Int × ReadLog)
+  | 0, pos, acc => .ok (pos, acc)
+  | k + 1, pos, acc =>
+    let d := readAt file pos rpl
+    if pos + d.length + leb < 0 then .error .other
+    else readWholeLinesChk file rpl leb k (pos + d.length + leb) { data := acc.data ++ d, reads := acc.reads ++ [rpl] }
+
 def sequenceBytes (file : Bytes) (info : FastaInfo) (start1 stop : Int) : R ReadLog := do
   let start := start1 - 1
   let rpl := info.rpl
@@ -181,7 +191,7 @@ def sequenceBytes (file : Bytes) (info : FastaInfo) (start1 stop : Int) : R Read
     let pos1 := pos0 + d1.length + leb
     if pos1 < 0 then throw .other
     let lastWhole := if lastOffset = 0 then lastLine else lastLine - 1
-    let (pos2, log) := readWholeLines file rpl leb (lastWhole - frstLine).toNat pos1
+    let (pos2, log) ← readWholeLinesChk file rpl leb (lastWhole - frstLine).toNat pos1
       { data := d1, reads := [rpl - frstOffset] }
     if lastOffset ≠ 0 then
       pure { data := log.data ++ readAt file pos2 lastOffset, reads := log.reads ++ [lastOffset] }
